@@ -7,8 +7,6 @@
 package loadbalancer
 
 import (
-	"net/http"
-
 	"github.com/0xReLogic/Helios/internal/circuitbreaker"
 	"github.com/0xReLogic/Helios/internal/ratelimiter"
 )
@@ -25,16 +23,6 @@ func (lb *LoadBalancer) VerifPassiveCount(name string) int {
 	lb.healthChecks.unhealthyBackendMu.RLock()
 	defer lb.healthChecks.unhealthyBackendMu.RUnlock()
 	return lb.healthChecks.unhealthyBackends[name]
-}
-
-// VerifProbeOnce is checkBackendHealth with the network exchange replaced by a
-// scheduling point: skip ejected backends, "send" the probe, apply a 200 result.
-func (lb *LoadBalancer) VerifProbeOnce(b *Backend) {
-	if !lb.IsBackendHealthy(b) {
-		return
-	}
-	vgate("probe:exchange")
-	lb.processHealthCheckResponse(b, &http.Response{StatusCode: http.StatusOK, Body: http.NoBody})
 }
 
 // VerifJumpHash exposes the integer jump-hash step for the exhaustive sweep (C06).
